@@ -455,6 +455,29 @@ static void case_c20(const drvargs_t *a,long id){
     else res_bucket("count|%s|%s",(F.l[i].len&1)?"odd":"even",F.l[i].len==0?"zero":F.l[i].len<600?"tiny":"long");
   }
   if(res_nviol()) goto out;
+  { /* streaming (no seek callback): the toggle comes before the first read; every link must then come out at half rate, bit-identical to the seekable half-rate decode */
+    handle_t hsn; memset(&hsn,0,sizeof hsn);
+    if(h_open(&hsn,phys.p,phys.n,0)){ res_viol("C20","open-failed","streaming: %s",desc); goto out; }
+    int ret=ov_halfrate(&hsn.vf,1); res_eval(1);
+    if(ret) res_viol("C20","toggle-refused","streaming: ov_halfrate(1) before the first read = %d: %s",ret,desc);
+    else {
+      long got[VH_MAXLINKS]; memset(got,0,sizeof got); float **pcm; int bs=0; long g; int bad=0; int lastbs=-1;
+      while(!bad && (g=ov_read_float(&hsn.vf,&pcm,(int)rng_range(&r,1,3000),&bs))!=0){
+        if(g<0){ res_viol("C20","streaming-halfrate-read-failed","read returned %ld in link %d: %s",g,bs,desc); bad=1; break; }
+        if(bs<0||bs>=H.nlinks){ res_viol("C20","streaming-halfrate-link-index","bitstream %d of %d",bs,H.nlinks); bad=1; break; }
+        const reflink_t *L=&H.l[bs];
+        if(got[bs]+g>L->nout){ res_viol("C20","halfrate-sample-count","streaming: link %d of length %lld delivers more than %ld samples with half-rate on: %s",bs,(long long)F.l[bs].len,L->nout,desc); bad=1; break; }
+        for(int c=0;c<L->ch && !bad;c++) if(memcmp(pcm[c],L->pcm[c]+got[bs],sizeof(float)*g)){ res_viol("C20","streaming-halfrate-audio-differs","link %d ch %d at sample %ld differs from the seekable half-rate decode: %s",bs,c,got[bs],desc); bad=1; }
+        got[bs]+=g; lastbs=bs; res_eval(1);
+        if(ov_halfrate_p(&hsn.vf)!=1){ res_viol("C20","halfrate_p","streaming: reports %d inside link %d although half-rate was switched on and never off: %s",ov_halfrate_p(&hsn.vf),bs,desc); bad=1; }
+      }
+      for(int i=0;i<H.nlinks && !bad;i++) if(got[i]!=H.l[i].nout){ res_viol("C20","halfrate-sample-count","streaming: link %d of length %lld delivered %ld samples with half-rate on, expected %ld: %s",i,(long long)F.l[i].len,got[i],H.l[i].nout,desc); bad=1; }
+      (void)lastbs;
+      if(!bad) res_bucket("streaming|links%d",H.nlinks>3?4:H.nlinks);
+    }
+    h_close(&hsn);
+  }
+  if(res_nviol()) goto out;
   {
     handle_t h; if(h_open(&h,phys.p,phys.n,1)){ res_viol("C20","open-failed","%s",desc); goto out; }
     int hs=0; int nops=a->thorough?300:150; char ctx[160]; cur_t cu; cu.valid=0;
@@ -686,7 +709,9 @@ static void case_c19(const drvargs_t *a,long id){
     ogg_int64_t t2=ov_pcm_tell(&H2.vf);
     int rc=ov_crosslap(&H1.vf,&H2.vf); res_eval(1);
     if(rc==0){
-      if(ov_pcm_tell(&H2.vf)!=t2 && t2>=0) res_viol("C19","crosslap-moved-second-handle","%lld -> %lld",(long long)t2,(long long)ov_pcm_tell(&H2.vf));
+      /* at half rate positions are only known to +-1 full-rate sample: two per sample returned, re-synchronised to the stream's (full-rate) granule positions whenever
+         priming decodes a packet that carries one (after the last sample of an odd-length link the position is its end + 1, then the end itself) */
+      if(ov_pcm_tell(&H2.vf)!=t2 && t2>=0 && !(hs2 && llabs(t2-ov_pcm_tell(&H2.vf))<=1)) res_viol("C19","crosslap-moved-second-handle","%lld -> %lld (half-rate: first %d second %d; total %lld): %s",(long long)t2,(long long)ov_pcm_tell(&H2.vf),hs1,hs2,(long long)F.total,desc);
       float **p2,**pt; int b2,bt; long z=ov_read_float(&T2.vf,&pt,0,&bt); (void)z;
       int n2=(int)(vorbis_info_blocksize(ov_info(&H2.vf,-1),0)>>(1+hs2)); int n1=(int)(vorbis_info_blocksize(ov_info(&H1.vf,-1),0)>>(1+hs1)); int n=n1<n2?n1:n2;
       /* H1's link at its position is only known for sure when it has a live decoder there; otherwise bound by the largest short block of the file */
